@@ -1007,7 +1007,7 @@ def _cost_class(self, name) -> str:
 
     def depth(n):
         return 1 + max([depth(c) for c in self.children(n)] + [0])
-    if len(self.chain(name)) - 1 + depth(name) >= 4:
+    if len(self.chain(name)) - 1 + depth(name) >= 3:
         heavy = True
     return 'heavy' if heavy else 'medium' if medium else 'cheap'
 
